@@ -367,6 +367,7 @@ func Run[S any](t *testing.T, sp Spec[S]) {
 		flag.Set("rapid.seed", s)
 	}
 	flag.Set("rapid.nofailfile", "true")
+	flag.Set("rapid.shrinktime", "20s") // (checks that run in real time pay for every shrink attempt)
 	track := os.Getenv("VERIF_TRACK_CURRENT") != ""
 	rapid.Check(t, func(rt *rapid.T) {
 		s := sp.Gen(rt)
